@@ -139,6 +139,9 @@ func genC15(r *sim.Rng, tier string, idx int) *GCase {
 			ext := sim.Pick(r, map[string][]string{"xz": {".xz", ".xz", ".txz"}, "lzma": {".lzma", ".lzma", ".tlz"}}[ff])
 			if r.Chance(1, 15) {
 				ext = sim.Pick(r, []string{".XZ", ".Xz", ".LZMA", ".TLZ"}) // not a known suffix: the letter case matters
+			} else if (v.Format == "" || v.Format == "auto") && r.Chance(1, 10) {
+				// a known suffix of the other format: the content decides, not the name
+				ext = sim.Pick(r, map[string][]string{"lzma": {".xz", ".txz"}, "xz": {".lzma", ".tlz"}}[ff])
 			}
 			f = FileSpec{Name: name + ext, Mode: sim.Pick(r, []uint32{0o644, 0o600, 0o444, 0o755, 0o640}), Kind: "stream", Stream: genForeignStream(r, ff)}
 			switch r.Weighted([]int{12, 1, 1, 1}) {
@@ -180,6 +183,11 @@ func genC15(r *sim.Rng, tier string, idx int) *GCase {
 			f = FileSpec{Name: f.Name, Kind: "dir"}
 		}
 		c.Files = append(c.Files, f)
+		if f.Kind != "symlink" && f.Kind != "dir" && r.Chance(1, 20) {
+			// the operand has a second name (hard link): still a regular file; the
+			// other name keeps the old content whatever happens to this one
+			c.Files = append(c.Files, FileSpec{Name: pickName(false) + ".hl", Kind: "hardlink", Target: f.Name})
+		}
 		if r.Chance(1, 12) {
 			v.Files = append(v.Files, pickName(dash)+".missing") // a missing operand
 		}
